@@ -46,6 +46,10 @@ func c20Alphabet() []jsCall {
 		{Name: "syntax-error", JS: "a +", Args: []interface{}{"a", int64(1)}, Want: "ERROR"},
 		{Name: "odd-args", JS: "1", Args: []interface{}{"a"}, Want: "ERROR"},
 		{Name: "iife-local", JS: "(function(){ var t = 5; return t + (typeof a) })()", Want: `"5undefined"`},
+		{Name: "literal-narrow", JS: "a + ' | ' + a", Args: []interface{}{"a", "x"}, Want: `"x | x"`},
+		{Name: "literal-wide", JS: "a + '   |   ' + a", Args: []interface{}{"a", "x"}, Want: `"x   |   x"`},
+		{Name: "comment-then-newline", JS: "a // c\n + 1", Args: []interface{}{"a", int64(1)}, Want: "2"},
+		{Name: "comment-to-end", JS: "a // c + 1", Args: []interface{}{"a", int64(1)}, Want: "1"},
 		{Name: "newrec", Ctx: "newrec"},
 		{Name: "ctx-rec", JS: "JSON.parse(_node).v", Ctx: "rec"},
 		{Name: "ctx-rec-with-arg", JS: "JSON.parse(_node).v + a", Args: []interface{}{"a", "!"}, Ctx: "rec"},
@@ -230,7 +234,7 @@ func init() {
 	core.Register(&core.Prop{
 		ID:    "C20",
 		Level: "model_checking",
-		Rule:  "E1: every history of up to 3 (thorough 4) calls over a 25-symbol alphabet (arguments of every kind, argument named like a built-in, all result kinds, NaN/Infinity/null/undefined/throw/syntax error/odd argument count, IIFE locals, javascript_with_context on the record node, on an ancestor whose children change, and after the record node was released and re-acquired) x every VM-pool answer (reuse/fresh) at every Get; every call's result must equal the same call made in isolation on a fresh VM with all caches disabled, and the expected value of a table (states = distinct (history prefix) outcome vectors, transitions = calls). E2: two threads x two calls from the alphabet under the cooperative scheduler (yield at every VM-pool / cache operation), all schedules with <= 2 preemptions; plus a free-running -race pass",
+		Rule:  "E1: every history of up to 3 (thorough 4) calls over a 29-symbol alphabet (arguments of every kind, argument named like a built-in, all result kinds, NaN/Infinity/null/undefined/throw/syntax error/odd argument count, IIFE locals, javascript_with_context on the record node, on an ancestor whose children change, and after the record node was released and re-acquired) x every VM-pool answer (reuse/fresh) at every Get; every call's result must equal the same call made in isolation on a fresh VM with all caches disabled, and the expected value of a table (states = distinct (history prefix) outcome vectors, transitions = calls). E2: two threads x two calls from the alphabet under the cooperative scheduler (yield at every VM-pool / cache operation), all schedules with <= 2 preemptions; plus a free-running -race pass",
 		Assumptions: []string{
 			"scripts that assign globals themselves are excluded by the property; top-level scripts of the alphabet are pure expressions or IIFEs",
 			"the isolated reference call uses the library's own 'caching disabled' path (fresh goja VM, no program / node-JSON cache)",
